@@ -782,7 +782,7 @@ pub fn one_run(ctx: &Ctx, out: &mut Outcome, run_seed: u64) {
     // flood runs (own random stream): hundreds to thousands of tiny reliable messages per tick, so that one packet
     // carries more messages than fit a one-byte count and thousands of ids are acknowledged by one ack packet
     let mut fr = Rng::new(run_seed ^ 0xF100D);
-    let flood = fr.chance(1, 24);
+    let flood = fr.chance(1, if ctx.thorough() { 100 } else { 24 });
     if flood {
         crate::props::c01::flood_cfg(&mut cfg, &mut fr);
         out.count("flood_runs");
